@@ -122,7 +122,7 @@ func runC10Pkt(c c10Pkt) *Violation {
 	v := withGateway(mkGateway(o), func() *Violation {
 		w := W()
 		snap := w.snap()
-		defer w.observe(snap)
+		defer w.observe(snap, 0)
 		id := sess.NewConnID()
 		send := func(cn interface {
 			Send([]byte) error
